@@ -9,6 +9,14 @@ TB = ("trusted base: rustc's MIR construction and Instance resolution for the re
       "mir-opt-level 0, overflow checks on), the fact extractor /verif/driver, std/rpds/arcstr behaving as documented")
 
 CLAIMS = {
+ 'C04': dict(
+   technique="ownership/who-may-call analysis of the single mutable buffer accessor + dominance of buffer normalisation over length-relative and accumulating writes (MIR)",
+   text=("Static, two structural clauses; equality of results with a bit-sequence model (alignment arithmetic of cut_bits/Iter8/eq_with/"
+         "invert/export) is value-level and NOT decided. R1 operands are never modified: the only mutable buffer access is data_mut = "
+         "Rc::make_mut + Cow::to_mut, called only on receivers owned by value, unreachable from any &self method; the range of a borrowed "
+         "value is written only by read. R2 storage history cannot leak: every append-at-len or `|=` write through data_mut is dominated by "
+         "truncate(upper_bound_index(end)) and by a tail-bit mask guarded only by end % 8 > 0."),
+   ref='§3 C04'),
  'C12': dict(
    technique="variant-pair table extraction from nested discriminant switches (eq vs cmp agreement) + receiver provenance of rpds *_mut calls + builder/boundary shape rules",
    text=("Static, structural part: agreement with an association-list/sequence model is value-level and not decided. Decided: which variant "
